@@ -126,7 +126,7 @@ def conv(val, tc, allowed=E_TYPE):
     if ORDER[vt] > ORDER[tc]:
         raise RAISES(allowed, "conversion %s -> %s is not defined" % (vt, tc))
     if tc == "i":
-        if abs(val) > INT64_MAX:
+        if val > INT64_MAX or val < -INT64_MAX - 1:
             raise RAISES(E_OVERFLOW, "integer does not fit a machine integer")
         return val
     if tc == "d":
